@@ -15,7 +15,13 @@ MANIFEST = dict(
          "wildcards_output_sublist (nothing invented, order kept), wildcards_excluded_known (exclusion sets name known columns of their star), wildcards_no_exclude_superset "
          "(without an exclusion facility nothing requested is lost), wildcards_duplicate_star_counterexample (the same star requested twice "
          "loses a column: the second flush overwrites the first exclusion set), wildcards_duplicate_star_emitted_counterexample (select {t.*, t.*} "
-         "after a generated column: the second star carries no exclusion and shows the helper column). Ties: the mirrors are compared with the real functions through the "
+         "after a generated column: the second star carries no exclusion and shows the helper column); and about the mirror of extract_atomic "
+         "(Model.Anchor.extractAtomic: split_off_back, anchor_split and the limiting SELECT around a block whose Select was widened by columns "
+         "other clauses need): extract_atomic_selects_exactly_the_frame (for every pipeline, every list of requested columns - repetitions "
+         "included - and wherever the pipeline is cut, the Select of the block that becomes this relation's SELECT is the requested list seen "
+         "through the redirects: same count, same order; helper columns never reach it), widened_select_shape. Ties: every call of "
+         "extract_atomic recorded while compiling a corpus is replayed through the mirror (returned pipeline and determine_select_columns must "
+         "agree exactly); the mirrors are compared with the real functions through the "
          "verif hooks (hook_dedup on all short item lists and random ones; suite `wildcards`: hook_wildcards vs driver op wildcards on every "
          "request of <= 4 columns over a two-instance schema and on random instances/requests with duplicate original_cids and duplicate "
          "requests, where the hook's own answer is also judged against the statements of the theorems); the property itself is checked on the implementation: the column "
@@ -30,6 +36,9 @@ MANIFEST = dict(
     note="The alias layer is not mirrored in Lean (covered by the result-column comparison only); whether the Lowerer's requests "
          "always satisfy the hypothesis WF of wildcards_exact is not proved (exercised from source by the exclusion stream). Dialects other than sqlite/generic are compared on the text of the final projection, not executed.",
     technique="Lean 4 proofs on the select-item deduplication kernel (hook-level correspondence) + result-column oracle on SQLite", ref="4/C05")
+
+
+import anchortrace
 
 
 def enc_item(it):
@@ -178,7 +187,8 @@ def run(ctx):
         required_theorems=["dedup_sublist", "no_merge", "no_merge_from", "dedup_removes_repetition", "kept_length",
                            "wildcards_exact", "wildcards_output_sublist", "wildcards_no_exclude_superset",
                            "wildcards_duplicate_star_counterexample", "exEnv_wf",
-                           "wildcards_exact_emitted", "wildcards_duplicate_star_emitted_counterexample", "wildcards_excluded_known"])
+                           "wildcards_exact_emitted", "wildcards_duplicate_star_emitted_counterexample", "wildcards_excluded_known",
+                           "extract_atomic_selects_exactly_the_frame", "widened_select_shape"])
     ctx.rule = ("(i) deduplicate_select_items: every list of <= 4 items over a 4-identifier alphabet (compound 1-2 parts / alias / other) "
                 "exhaustively + random longer lists, real function (hook) vs Lean mirror; translate_wildcards: every request of <= 4 column ids "
                 "over {2 known + star, 1 known + star, 1 computed} + random instances/requests, hook vs mirror and hook vs theorem statements; (ii) generated programs x databases: names, "
@@ -449,8 +459,25 @@ def run(ctx):
     explore("wildcards", random.Random(5055), 300 if quick else 2500, UNDECL)
     explore("dup-names-systematic", None, 0, FULL,
             cases=relgen.systematic_cases(3 if quick else 4, FULL, kinds=["select", "join", "group_take", "exclude", "group_agg", "derive", "filter"]))
+    # columns that a block carries only for another clause (a sort key that the projection drops, also after an aggregation or a
+    # group, with and without a following take) must not reach the result: every such sequence, several variants
+    hidden = relgen.sequence_cases([seq + tail for seq in [("sort", "select"), ("group_agg", "sort", "select"), ("aggregate", "derive", "sort", "select"),
+                                                          ("join", "sort", "select"), ("derive", "sort", "select"), ("group_agg", "derive", "sort", "select"),
+                                                          ("sort", "take", "select"), ("group_take", "sort", "select")]
+                                    for tail in [(), ("take",), ("filter",)]], SAFE, seed=5057, variants=6 if quick else 25)
+    ctx.coverage_extra["hidden_sort_key_cases"] = len(hidden)
+    explore("hidden-sort-key", None, 0, SAFE, cases=hidden)
+    explore("hidden-sort-key-generic", None, 0, SAFE, "sql.generic", cases=hidden)
     explore("seed", ctx.rng, 200 if quick else 2500, FULL)
     explore("generic", ctx.rng, 100 if quick else 1000, SAFE, "sql.generic")
+    # the mirror of extract_atomic (limiting SELECT included) and of determine_select_columns: every recorded call replayed
+    n_ev, n_bad, hooked = anchortrace.run_suite(ctx, [c.prql for c in hidden] + [relgen.make_case(random.Random(5058 + i), **FULL).prql for i in range(150 if quick else 1500)],
+                                                "extract", targets=("sql.sqlite", "sql.postgres"))
+    if hooked:
+        ctx.obligation("correspondence: extract_atomic / determine_select_columns = Model.Anchor.extractAtomic / determineSelect on every recorded call; "
+                       "the returned Select is the requested output", n_bad == 0 and n_ev > 0, f"{n_ev} recorded calls replayed, {n_bad} differ")
+    else:
+        ctx.assumptions.append("the trace hooks are not available in this tree: the extract_atomic mirror was not compared this run")
     ctx.obligation("oracle: result columns = final frame (all unlisted cases)", not [v for v in ctx.violations if v["kind"] == "failing-input"], "")
 
 
